@@ -98,6 +98,8 @@ Inductive wop (T : Type) :=
 | WCopyLeaf (self tmp : nat)
 | WIPow (generic_copy : bool) (self : elem) (p : nat) (tmp one_tmp : elem)
 | WIPowNeg (generic_copy : bool) (self : elem) (p : nat) (tmp one_tmp one2 : elem)   (* x **= -p *)
+| WPow (generic_copy : bool) (self : elem) (p : nat) (res tmp one_tmp : elem)   (* x ** p: tmp = self.copy(); tmp.__ipow__(p) *)
+| WData (o : opname) (self wrapped tmp : elem)    (* operator with an ndarray / nested list operand *)
 | WBcast (inplace : bool) (k : bkind) (sp0 : space) (parts : elems) (other : elem) (tmps : elems).
 Arguments WLincomb1 {T}. Arguments WLincomb2 {T}. Arguments WMultiply {T}. Arguments WDivide {T}.
 Arguments WAssign {T}. Arguments WCopy {T}. Arguments WSetZero {T}.
@@ -106,7 +108,7 @@ Arguments WISub {T}. Arguments WSub {T}. Arguments WISubS {T}. Arguments WSubS {
 Arguments WRSub {T}. Arguments WRSubS {T}. Arguments WIMulS {T}. Arguments WMulS {T}.
 Arguments WIMul {T}. Arguments WMul {T}. Arguments WITrueDivS {T}. Arguments WTrueDivS {T}.
 Arguments WITrueDiv {T}. Arguments WTrueDiv {T}. Arguments WRTrueDiv {T}. Arguments WRTrueDivS {T}.
-Arguments WNeg {T}. Arguments WPos {T}. Arguments WCopyLeaf {T}. Arguments WIPow {T}. Arguments WIPowNeg {T}. Arguments WBcast {T}.
+Arguments WNeg {T}. Arguments WPos {T}. Arguments WCopyLeaf {T}. Arguments WIPow {T}. Arguments WIPowNeg {T}. Arguments WPow {T}. Arguments WData {T}. Arguments WBcast {T}.
 
 Record caseW (T : Type) := mkW {
   w_sp : space;
@@ -188,6 +190,10 @@ Definition run_wop (sp : space) (o : wop T) : store T -> outcome T :=
              (if g then w_copy flg bdtf icast sp else fun x t => w_copy_leaf (leaf_id x) (leaf_id t))
              sp self p tmp one_tmp)
           (with_one one2 (w_divide sp one2 self self))
+  | WPow g self p res tmp one_tmp =>
+      let cp := if g then w_copy flg bdtf icast sp else fun x t => w_copy_leaf (leaf_id x) (leaf_id t) in
+      seq (cp self res) (w_ipow flg bdtf icast (S p) cp sp res p tmp one_tmp)
+  | WData o self wrapped tmp => w_data flg bdtf icast sp o self wrapped tmp
   | WBcast inplace k sp0 parts other tmps =>
       if inplace then bcast1 (fun x => run_b true k sp0 other x x) parts
       else bcast2 (run_b false k sp0 other) parts tmps
